@@ -15,6 +15,7 @@ from engine import op_place, AnchorLost
 from terms import TermBuilder, render, strip_proj
 from common import switch_info, arms_of, err_assign_blocks, ok_assign_blocks, reach_from, fmt_key
 from audit import Auditor
+from pathsens import PathExplorer
 
 FS_SINKS = {
     # callee regex -> indexes of the path arguments that are created / modified / removed
@@ -205,7 +206,9 @@ def run(f, fixture, rep, cfg, tier):
                 blk = {c.bb for c in calls if c.decl == n}
                 if not blk or not heads:
                     continue
-                around = reach_from(ex, tgt, blocked_blocks=blk | set(others))
+                pe = PathExplorer(ex)
+                pe.run(start=tgt, blocked=frozenset(blk | set(others)))
+                around = pe.visited_bbs
                 rep.check(not any(h in around for h in heads), "R5", "arm|%s|always|%s" % (name, n), "every completed FileMode::%s entry passed %s" % (name, n),
                           "a FileMode::%s entry can complete without %s (a path through the arm bypasses it)" % (name, n), ex.span)
             for c in calls:
@@ -221,8 +224,12 @@ def run(f, fixture, rep, cfg, tier):
                     rep.check(t.endswith(".metadata.linkto"), "R5", "arm|%s|target" % name, "the link target is the recorded one", "symlink target is %s" % t[:160], c.loc())
         inv = arms.get("Invalid")
         if inv is not None:
-            r = reach_from(ex, inv)
-            rep.check(not any(c.bb in r and ex.dominates(inv, c.bb) for (c, _i) in sinks) and any(b in r for (b, v) in err_assign_blocks(ex)), "R5", "arm|Invalid",
+            pe = PathExplorer(ex)
+            fin = pe.run(start=inv, blocked=frozenset(t for n, t in arms.items() if n != "Invalid"))
+            r = pe.visited_bbs
+            heads_all = [fc2.bb for fc2 in ex.calls() if fc2.decl == "std::iter::Iterator::next" and ex.dominates(fc2.bb, inv)]
+            errs_only = bool(fin) and all(n[4] == "err" for n in fin) and not any(h in r for h in heads_all)
+            rep.check(not any(c.bb in r and ex.dominates(inv, c.bb) for (c, _i) in sinks) and errs_only, "R5", "arm|Invalid",
                       "other file types are an error and touch nothing", "the Invalid arm performs filesystem calls or does not return an error", ex.span)
 
 
